@@ -110,6 +110,43 @@ static bool is_nan_bits(int width, uint64_t v) {
   return ((v >> 52) & 0x7ff) == 0x7ff && (v & 0xfffffffffffffull) != 0;
 }
 
+static void wide_head(unsigned major, uint64_t arg, unsigned steps, std::vector<uint8_t>& out) {
+  // widths in order: embedded (arg < 24), 1, 2, 4, 8 bytes
+  int minw = arg < 24 ? 0 : arg <= 0xff ? 1 : arg <= 0xffff ? 2 : arg <= 0xffffffffull ? 3 : 4;
+  int w = minw + (int)steps; if (w > 4) w = 4;
+  unsigned mb = major << 5;
+  if (w == 0) { out.push_back((uint8_t)(mb | arg)); return; }
+  int nbytes = 1 << (w - 1);
+  out.push_back((uint8_t)(mb | (23 + w)));
+  for (int i = nbytes - 1; i >= 0; i--) out.push_back((uint8_t)(arg >> (8 * i)));
+}
+
+void ref_encode_wire(const MV& v, const std::function<unsigned()>& widen, std::vector<uint8_t>& out) {
+  switch (v.kind) {
+    case MK_BSTR: case MK_TSTR: {
+      unsigned major = v.kind == MK_BSTR ? 2 : 3;
+      if (v.definite) { wide_head(major, v.bytes.size(), widen(), out); out.insert(out.end(), v.bytes.begin(), v.bytes.end()); }
+      else { out.push_back((uint8_t)((major << 5) | 31)); for (auto& c : v.kids) ref_encode_wire(c, widen, out); out.push_back(0xff); }
+      break;
+    }
+    case MK_ARRAY:
+      if (v.definite) { wide_head(4, v.kids.size(), widen(), out); for (auto& c : v.kids) ref_encode_wire(c, widen, out); }
+      else { out.push_back(0x9f); for (auto& c : v.kids) ref_encode_wire(c, widen, out); out.push_back(0xff); }
+      break;
+    case MK_MAP:
+      if (v.definite) { wide_head(5, v.kids.size() / 2, widen(), out); for (auto& c : v.kids) ref_encode_wire(c, widen, out); }
+      else { out.push_back(0xbf); for (auto& c : v.kids) ref_encode_wire(c, widen, out); out.push_back(0xff); }
+      break;
+    case MK_TAG: wide_head(6, v.val, widen(), out); if (!v.kids.empty()) ref_encode_wire(v.kids[0], widen, out); break;
+    case MK_FLOAT: {
+      out.push_back((uint8_t)(0xe0 | (v.width == 2 ? 25 : v.width == 4 ? 26 : 27)));
+      for (int i = v.width - 1; i >= 0; i--) out.push_back((uint8_t)(v.val >> (8 * i)));     // NaN payload as stored, not canonicalised
+      break;
+    }
+    default: ref_encode(v, out);    // integers carry their width in the model; simple values have one encoding the decoder accepts
+  }
+}
+
 void ref_encode(const MV& v, std::vector<uint8_t>& out) {
   switch (v.kind) {
     case MK_UINT: fixed_head(0, v.width, v.val, out); break;
